@@ -308,9 +308,61 @@ def check_config(ctx, tr, rng, k, j, mon):
         ctx.sample(dict(wit, returned=exp[:8], skipped=exp_skipped, directories_listed=exp_listed[:6]))
 
 
+def odd_name_walks(ctx):
+    """Names holding line feeds, spaces, brackets and backslashes under an empty / absent / ordinary file pattern."""
+    from .c05 import ODD_TREE
+    cases = [(None, None), ('', ''), ('*', None), ('*.txt|a*', None), ('!*.py', None), ('*', 'sub*'), ('', 'q?r'), (None, 'a b|sub'), ('[[]*|x*', ''), ('?', None),
+             ('*.p[y]', None), ('ab[c]|ab?', None)]
+    fsets = [('RECURSIVE', 'HIDDEN'), ('RECURSIVE',), (), ('RECURSIVE', 'FILEPATHNAME', 'GLOBSTAR'), ('RECURSIVE', 'IGNORECASE')]
+    idx, todo = 0, []
+    for fp, dp in cases:
+        for fn in fsets:
+            idx += 1
+            if ctx.mine(idx):
+                todo.append((fp, dp, fn))
+    if not todo:
+        return
+    with T.Tree(ODD_TREE, 'c14o-') as tr:
+        for fp, dp, fn in todo:
+            fn = sorted(fn)
+            with ctx.case(timeout=20, label=('odd-names', fp, dp, tuple(fn))):
+                if 'FILEPATHNAME' in fn and fp and '|' not in fp and not fp.startswith('!'):
+                    fpt = '**/' + fp
+                else:
+                    fpt = fp
+                fpieces = [(p_.startswith('!'), p_.lstrip('!'), None) for p_ in (fpt or '').split('|') if p_]
+                dpieces = [(False, p_, None) for p_ in (dp or '').split('|') if p_]
+                if 'FILEPATHNAME' in fn and any('/' not in t for _n, t, _a in fpieces):
+                    continue
+                fpred = piece_predicate(fpieces, 'FILEPATHNAME' in fn, fn, '!')
+                dpred = piece_predicate(dpieces, False, fn, '!')
+                exp, exp_skipped, _l, _s = reference_walk(
+                    tr.root, fn, lambda relp, name: (lambda r: True if r is None else r)(fpred(relp if 'FILEPATHNAME' in fn else name)),
+                    lambda relp, name: (lambda r: False if r is None else r)(dpred(name)))
+                wit = {'tree': ODD_TREE, 'file_pattern': fpt, 'exclude_pattern': dp, 'flags': fn}
+                for as_bytes in (False, True):
+                    conv = (lambda x: os.fsencode(x) if x is not None else None) if as_bytes else (lambda x: x)
+                    try:
+                        w = WM.WcMatch(conv(tr.root), conv(fpt), conv(dp), wmflags(fn))
+                        got = sorted(os.path.relpath(os.fsdecode(p), tr.root) for p in w.match())
+                        sk = w.get_skipped()
+                    except Exception as e:  # noqa: BLE001
+                        ctx.disagree(f'WcMatch raised {type(e).__name__}', dict(wit, bytes=as_bytes, exception=repr(e)[:200]))
+                        continue
+                    ctx.evals()
+                    ctx.count('odd_name_walks')
+                    if got != sorted(exp) or sk != exp_skipped:
+                        ctx.disagree('WcMatch result differs from the filtered reference walk',
+                                     dict(wit, bytes=as_bytes, missing=sorted(set(exp) - set(got))[:10], extra=sorted(set(got) - set(exp))[:10],
+                                          get_skipped=sk, expected_skipped=exp_skipped))
+                if exp and exp_skipped:
+                    ctx.mark_nontrivial(('odd', fp, dp, tuple(fn)))
+
+
 def run(ctx):
     quick = ctx.quick
     mon = FSMonitor.get()
+    odd_name_walks(ctx)
     k = 0
     limit = 200 if quick else 10 ** 9
     while k < limit and not ctx.out_of_time():
